@@ -40,7 +40,7 @@ CHECKS = {
    design="4.2"),
  "C16": dict(
    engine="thrsim",
-   technique="deterministic thread simulation: seeded scenarios (sixteen classes: race, late, pool, general, shared, deep, crowd, bigproj, owner, rounds, badpool, handoff; thorough also hot, bigsort, manytexts, longrun) under Miri's seeded scheduler with data-race and deadlock detection, each execution compared with the sequential run; deterministic native serial-threads pass; compile-time Send/Sync obligations",
+   technique="deterministic thread simulation: seeded scenarios (eighteen classes: race, late, pool, general, shared, deep, crowd, bigproj, owner, rounds, badpool, badskew, handoff, tostr; thorough also hot, bigsort, manytexts, longrun) under Miri's seeded scheduler with data-race and deadlock detection, each execution compared with the sequential run; deterministic native serial-threads pass; compile-time Send/Sync obligations",
    text="Exploration: seeded multi-thread scenarios (shared expressions, shared documents, first use of the default runtime inside or just before the race, steady-state compiling of the same texts, five threads deep in nested calls, thousand-call hot functions in the thorough tier) executed under Miri with many scheduler seeds and preemption rates, under sync and sync+specialized; every execution must equal the sequential result and Miri must report no data race, deadlock, UB, leak or panic. Thousands of scenarios are also run natively with each thread's operations on its own thread, one thread after the other (deterministic: exposes dependence on thread identity). Send/Sync obligations are compiled under --features sync.",
    note="Trusted: Miri's scheduler and race detector; sampling of schedules, not enumeration.",
    design="4.3"),
